@@ -12,9 +12,9 @@ impl Property for C02 {
     }
     fn plan(&self, tier: Tier) -> Vec<Segment> {
         vec![
-            Segment::random("small", tier.pick(12_000, 200_000), &[0], 8, 400),
-            Segment::random("medium", tier.pick(6_000, 100_000), &[1], 8, 400),
-            Segment::random("sparse-large", tier.pick(1_200, 30_000), &[2], 8, 400),
+            Segment::random("small", tier.pick(100_000, 1_000_000), &[0], 8, 400),
+            Segment::random("medium", tier.pick(50_000, 500_000), &[1], 8, 400),
+            Segment::random("sparse-large", tier.pick(10_000, 100_000), &[2], 8, 400),
         ]
     }
     fn rule(&self) -> &'static str {
